@@ -180,11 +180,18 @@ impl BuiltAdt {
 
         // Handle version-specific chunks based on target version
         let flight_bounds = if version >= AdtVersion::TBC {
-            // Use existing flight bounds or create defaults for TBC+
-            root.flight_bounds.or(Some(MfboChunk {
-                max_plane: [0; 9],
-                min_plane: [0; 9],
-            }))
+            // Use existing flight bounds. Defaults are only synthesised when the caller asked
+            // for a conversion to another version; plain re-serialisation (`None`, or the
+            // version the tile already has) must not add content that was not there.
+            let converting = target_version.is_some_and(|v| v != root.version);
+            root.flight_bounds.or(if converting {
+                Some(MfboChunk {
+                    max_plane: [0; 9],
+                    min_plane: [0; 9],
+                })
+            } else {
+                None
+            })
         } else {
             None // Remove for pre-TBC
         };
